@@ -47,6 +47,7 @@ def main():
         meta = json.load(open(os.path.join(base, sid, "meta.json")))
         patch = os.path.join(base, sid, "patch.diff")
         subprocess.run(["git", "-C", repo, "checkout", "--", "."], check=True)
+        subprocess.run(["git", "-C", repo, "clean", "-fdq", "-e", "target"])      # files a previous patch added
         r = subprocess.run(["git", "-C", repo, "apply", patch], capture_output=True, text=True)
         if r.returncode != 0:
             res[sid] = {"error": "patch does not apply: " + r.stderr[-300:]}
@@ -74,6 +75,7 @@ def main():
                 print(sid, p, "rc=%d" % r.returncode, (lines[0][:120] if lines else ""), flush=True)
         finally:
             subprocess.run(["git", "-C", repo, "checkout", "--", "."])
+            subprocess.run(["git", "-C", repo, "clean", "-fdq", "-e", "target"])
         entry["caught_by"] = sorted(p for p, v in entry["checks"].items() if v["rc"] != 0)
         json.dump(res, open(out, "w"), indent=1, sort_keys=True)
     subprocess.run(["git", "-C", ROOT, "checkout", "--", "evidence"])
